@@ -160,7 +160,7 @@ pub fn run(ctx: &Ctx) -> Report {
     if ctx.scale < 1.0 {
         cfg.max_transitions = 40;
     }
-    run_cases(ctx, &mut rep, 1, ctx.n(20_000, 1_000_000), |l, rng, i| {
+    run_cases(ctx, &mut rep, 1, ctx.n(60_000, 2_000_000), |l, rng, i| {
         let z = gen_zone(rng, &cfg);
         let calls = check_zone(l, &z, rng, 48, 10);
         l.op_n("find_local_time_type / from_timespec", calls);
